@@ -53,10 +53,15 @@ pub fn apply(m: &mut Module, ch: &mut Ch, n: usize) -> Vec<String> {
                 let nr = ch.below(3);
                 let params = val_types(ch, np);
                 let results = val_types(ch, nr);
+                // a scratch local that is older than the argument locals
+                let scratch = if ch.bool() { Some(m.locals.add(ValType::I32)) } else { None };
                 let args: Vec<LocalId> = params.iter().map(|t| m.locals.add(*t)).collect();
                 let mut fb = FunctionBuilder::new(&mut m.types, &params, &results);
                 {
                     let mut body = fb.func_body();
+                    if let Some(s) = scratch {
+                        body.i32_const(3).local_set(s).local_get(s).drop();
+                    }
                     // use a param if there is one
                     if let Some(a) = args.first() {
                         body.local_get(*a).drop();
